@@ -18,7 +18,7 @@ use crate::operator::{
     IntoOpResult, OpError, OpRunContext, Operator, OutputList, OutputType, OutputTypeList,
     OutputTypesContext, PrepackedInput, static_dims,
 };
-use crate::ops::binary_elementwise::broadcast_shapes;
+use crate::ops::binary_elementwise::{add, broadcast_shapes};
 use crate::ops::layout::expand_to;
 use crate::shift_cast::ShiftCast;
 use crate::value::{DataType, ValueType, ValueView};
@@ -479,15 +479,25 @@ impl Operator for FusedMatMul {
     fn run(&self, ctx: &OpRunContext) -> Result<OutputList, OpError> {
         let inputs = ctx.inputs();
         let a = inputs.require_as(0)?;
-        let b = inputs.require_as(1)?;
+        let b: TensorView<f32> = inputs.require_as(1)?;
         let packed_b = match inputs.get_prepacked(1) {
             Some(PrepackedInput::FloatBMatrix(pb)) => Some(pb),
             _ => None,
         };
 
-        let bias = inputs
-            .get_as::<NdTensorView<f32, 1>>(2)?
-            .map(|b| b.to_contiguous_in(ctx.pool()));
+        let bias = inputs.get_as::<NdTensorView<f32, 1>>(2)?;
+
+        // The fused bias is added to every row of the output, so it must have
+        // one element per output column. Any other bias is added with
+        // broadcasting, as in the unfused `Add(MatMul(a, b), bias)`.
+        if let Some(bias) = &bias
+            && !(b.ndim() >= 2 && bias.size(0) == b.size(b.ndim() - 1))
+        {
+            let product = matmul_fused(ctx.pool(), a, b, packed_b, None, self.alpha)?;
+            return add(ctx.pool(), product.view(), bias.as_dyn()).into_op_result();
+        }
+
+        let bias = bias.map(|b| b.to_contiguous_in(ctx.pool()));
         let bias = bias.as_ref().map(|b| BiasVector::Row(b.data()));
 
         matmul_fused(ctx.pool(), a, b, packed_b, bias, self.alpha).into_op_result()
